@@ -39,6 +39,8 @@ func compileLocus(msgs []string) string {
 		return "checkDepTName-array"
 	case regexp.MustCompile(`undefined: [a-z]\w*_\w+`).MatchString(all):
 		return "analyzeDefault-enum-name-case"
+	case regexp.MustCompile(`undefined: [A-Z]\w*_[A-Za-z]\w*`).MatchString(all):
+		return "analyzeDefault-enum-package-qualifier"
 	case strings.Contains(all, "overflows"):
 		return "constant-overflow"
 	case strings.Contains(all, "import cycle"):
@@ -99,7 +101,7 @@ func compileAndCheck(e *env, cases []*caseOp, results []*caseResult, res *common
 			continue
 		}
 		res.Count("compile/"+pid, "compile:ok", true)
-		got, err := emittedSchema(filepath.Join(e.buildDir, pid))
+		got, err := emittedSchema(filepath.Join(e.buildDir, pid), c.Cycle)
 		if err != nil {
 			res.Violate(common.Violation{Signature: "C16:emitted-unparsable:go-parser", What: err.Error(),
 				Case: common.Case{Stream: "schema", Op: c}})
@@ -165,8 +167,10 @@ func firstDiff(want, got []string) string {
 // emittedSchema reads the Go packages below dir (one directory per IDL module) and returns the
 // sorted lines "<module>|S:Name{Field GoType name,tag:N,require:B;...}" and
 // "<module>|E:Name{Name_Member=value;...}".
-func emittedSchema(dir string) ([]string, error) {
+func emittedSchema(dir string, cycle bool) ([]string, error) {
 	var out []string
+	// package directories: <module>, or <file>/<module> with -module-cycle
+	var mods []string
 	ents, err := os.ReadDir(dir)
 	if err != nil {
 		return nil, err
@@ -175,7 +179,21 @@ func emittedSchema(dir string) ([]string, error) {
 		if !ent.IsDir() {
 			continue
 		}
-		mod := ent.Name()
+		if !cycle {
+			mods = append(mods, ent.Name())
+			continue
+		}
+		sub, err := os.ReadDir(filepath.Join(dir, ent.Name()))
+		if err != nil {
+			return nil, err
+		}
+		for _, s := range sub {
+			if s.IsDir() {
+				mods = append(mods, ent.Name()+"/"+s.Name())
+			}
+		}
+	}
+	for _, mod := range mods {
 		fset := token.NewFileSet()
 		pkgs, err := parser.ParseDir(fset, filepath.Join(dir, mod), nil, 0)
 		if err != nil {
